@@ -5,6 +5,7 @@ from inside a running callback (execute or Drain), and the anchored clients of t
 ProofsClients.lean, and non-vacuity examples.
 -/
 import GoZero.C12.ProofsClients
+import GoZero.C12.Handoff
 import GoZero.C12.PropsApi
 namespace GoZero.C12
 
@@ -271,6 +272,73 @@ theorem cache_expiry_remove_is_noop (n : Nat) (hn : 0 < n) (ops₀ ops : List Op
   conv => rhs; rw [e0, Spec.drop_append_len]
   simp only [Spec.run, List.drop_succ_cons, List.drop_zero, Spec.step, hrm]
 
+/-! ### Drain's hand-off to the bounded worker pool, with callbacks that call back into the wheel -/
+
+theorem runOnLoop_fills (w : Nat) (fuel b p : Nat) (hb : b ≤ w) (hp : w - b < p) (hf : w - b ≤ fuel) :
+    runOnLoop w fuel ⟨p, b, 0⟩ = ⟨p - (w - b), w, 0⟩ := by
+  induction fuel generalizing b p with
+  | zero =>
+    have : b = w := by omega
+    subst this
+    simp [runOnLoop]
+  | succ f ih =>
+    by_cases hlt : b < w
+    · have hp0 : p > 0 := by omega
+      simp only [runOnLoop, stepsOnLoop, hp0, hlt, if_true]
+      rw [ih (b + 1) (p - 1) (by omega) (by omega) (by omega)]
+      congr 1
+      omega
+    · have : b = w := by omega
+      subst this
+      have hp0 : p > 0 := by omega
+      simp [runOnLoop, stepsOnLoop, hp0]
+
+/-- **The hand-off on the run loop's own goroutine stalls** (the defect fixed by fixes/C12-drain-reentrant-stall.patch):
+with more drained tasks than workers (`w < n`) whose callbacks call back into the wheel, after `w` steps all workers
+are busy, `n - w > 0` tasks are still pending, no callback has returned, and no step is possible any more. -/
+theorem handoff_on_loop_stalls (w n fuel : Nat) (hn : w < n) (hf : w ≤ fuel) :
+    runOnLoop w fuel ⟨n, 0, 0⟩ = ⟨n - w, w, 0⟩ ∧ stepsOnLoop w ⟨n - w, w, 0⟩ = [] ∧ 0 < n - w := by
+  refine ⟨?_, ?_, by omega⟩
+  · have := runOnLoop_fills w fuel 0 n (by omega) (by omega) (by omega)
+    simpa using this
+  · have : n - w > 0 := by omega
+    simp [stepsOnLoop, this]
+
+/-- **The hand-off on a goroutine of its own never stalls** (the fixed code; `w ≥ 1` workers): while a task is pending
+or a callback is running some step is possible, every step keeps the number of tasks and strictly decreases
+`2·pending + busy` — so every run ends, and it ends with every task's callback returned. -/
+theorem handoff_off_loop_never_stalls (w : Nat) (hw : 0 < w) (s : HS) :
+    (0 < s.pending + s.busy → stepsOffLoop w s ≠ [])
+    ∧ (∀ s' ∈ stepsOffLoop w s,
+        2 * s'.pending + s'.busy < 2 * s.pending + s.busy
+        ∧ s'.pending + s'.busy + s'.done = s.pending + s.busy + s.done)
+    ∧ (stepsOffLoop w s = [] → s.pending = 0 ∧ s.busy = 0) := by
+  refine ⟨?_, ?_, ?_⟩
+  · intro h
+    unfold stepsOffLoop
+    by_cases hb : s.busy > 0
+    · simp [hb]
+    · have : s.pending > 0 ∧ s.busy < w := by omega
+      simp [this]
+  · intro s' hs'
+    unfold stepsOffLoop at hs'
+    simp only [List.mem_append] at hs'
+    rcases hs' with h | h
+    · split at h
+      · simp only [List.mem_singleton] at h; subst h; simp only []; omega
+      · cases h
+    · split at h
+      · simp only [List.mem_singleton] at h; subst h; simp only []; omega
+      · cases h
+  · intro h
+    unfold stepsOffLoop at h
+    by_cases hb : s.busy > 0
+    · simp [hb] at h
+    · by_cases hp : s.pending > 0
+      · have : s.pending > 0 ∧ s.busy < w := by omega
+        simp [this] at h
+      · omega
+
 /-! ### Non-vacuity -/
 
 /-- clause 1 through the API on a wrapped wheel: interval 7, delay 59 = 8 intervals + 3. -/
@@ -298,5 +366,10 @@ example : ((ApiG.runCb step cleanerCb 100 (Api.init second 300) [(1, [true, true
   decide
 
 example : Outcomes.next [(1, [true, false])] 1 = (true, [(1, [false])]) := by decide
+
+/-- 9 drained tasks, 8 workers: the on-loop hand-off is stuck with one task pending and no callback returned; the
+off-loop hand-off can always move from that very state. -/
+example : runOnLoop 8 100 ⟨9, 0, 0⟩ = ⟨1, 8, 0⟩ ∧ stepsOnLoop 8 ⟨1, 8, 0⟩ = [] ∧ stepsOffLoop 8 ⟨1, 8, 0⟩ = [⟨1, 7, 1⟩] := by
+  decide
 
 end GoZero.C12
